@@ -134,6 +134,10 @@ pub struct Case {
     pub imgs: Vec<ImgSpec>,
     pub poss: Vec<(usize, usize)>,
     pub evs: Vec<Ev>,
+    /// all non-empty images of the case are crops of ONE backing `Image` object (windows into
+    /// one picture), whatever their `build` says
+    #[serde(default)]
+    pub shared_backing: bool,
 }
 
 // ---------------------------------------------------------------------------------------
@@ -586,7 +590,9 @@ struct Pending {
 enum Ctx {
     Draw { key: usize, pos: (usize, usize) },
     Erase,
-    Resp,
+    /// handling a response; `about` = the placement id it names, if that is a placement the
+    /// handler itself created by a draw of this image
+    Resp { about: Option<u64> },
 }
 
 impl Ctx {
@@ -594,7 +600,7 @@ impl Ctx {
         match self {
             Ctx::Draw { .. } => "draw",
             Ctx::Erase => "erase",
-            Ctx::Resp => "response",
+            Ctx::Resp { .. } => "response",
         }
     }
 }
@@ -1017,7 +1023,7 @@ impl Run {
             1 => "tx:base64-pad2",
             _ => "tx:base64-pad1",
         });
-        if matches!(ctx, Ctx::Resp) {
+        if matches!(ctx, Ctx::Resp { .. }) {
             self.label("resp:retransmit");
             self.nontrivial = true;
         }
@@ -1064,9 +1070,16 @@ impl Run {
         };
         let at = match ctx {
             Ctx::Draw { key, pos } => {
+                // the one pair of contents known to collide in the 32-bit id space has a
+                // signature of its own (known finding); anything else is reported plainly
+                let sig = if known_colliding(&self.table[stored], &self.table[key]) {
+                    "put/wrong-content/known-colliding-ids-b021f58e-a2ebf1ed"
+                } else {
+                    "put/wrong-content"
+                };
                 ensure!(
                     stored == key,
-                    "put/wrong-content",
+                    sig,
                     "event #{ev}: a=p,i={id} shows the {}x{} content transmitted earlier under this id, not the {}x{} image being drawn",
                     self.table[stored].1,
                     self.table[stored].0,
@@ -1076,6 +1089,17 @@ impl Run {
                 Some(pos)
             }
             _ => {
+                if let Ctx::Resp { about: Some(about) } = ctx {
+                    // the terminal reported a failure for placement `about`: what the handler
+                    // re-creates in answer must be that placement, not another one
+                    ensure!(
+                        pid == about,
+                        "redraw/wrong-placement",
+                        "event #{ev} (response): the terminal reported an error for placement (i={id},p={about}), created by drawing at {:?}; the handler answers by creating placement p={pid} with the cursor at {:?}",
+                        self.m.pos_of_put.get(&(id, about)),
+                        self.m.cursor
+                    );
+                }
                 if let Some(orig) = self.m.pos_of_put.get(&(id, pid)) {
                     ensure!(
                         self.m.cursor == Some(*orig),
@@ -1106,11 +1130,17 @@ impl Run {
             Some(slot) => *slot = new,
             None => self.m.placements.push(new),
         }
-        if matches!(ctx, Ctx::Resp) {
+        if matches!(ctx, Ctx::Resp { .. }) {
             self.label("resp:redraw");
         }
         Ok(())
     }
+}
+
+/// the one pair of 1x1 contents whose 64-bit content hashes reduce to the same kitty image id
+fn known_colliding(a: &(usize, usize, Vec<u8>), b: &(usize, usize, Vec<u8>)) -> bool {
+    let one = |e: &(usize, usize, Vec<u8>), px: [u8; 4]| e.0 == 1 && e.1 == 1 && e.2 == px;
+    (one(a, COLLIDING_PIXELS.0) && one(b, COLLIDING_PIXELS.1)) || (one(a, COLLIDING_PIXELS.1) && one(b, COLLIDING_PIXELS.0))
 }
 
 fn pos_label(p: (usize, usize)) -> &'static str {
@@ -1146,10 +1176,55 @@ pub fn check_case(case: &Case) -> Outcome {
     // ---- images
     let mut images = Vec::new();
     let mut img_key = Vec::new();
-    for spec in &case.imgs {
+    let mut shared: Vec<Option<Image>> = vec![None; case.imgs.len()];
+    let mut windows = false;
+    if case.shared_backing {
+        // regions stacked vertically in one picture, each with its own padding
+        let mut regions: Vec<(usize, usize, usize, &Content)> = Vec::new();
+        let (mut rows, mut width) = (0usize, 1usize);
+        for (i, spec) in case.imgs.iter().enumerate() {
+            let c = &case.contents[spec.content.min(case.contents.len() - 1)];
+            if c.is_empty() {
+                continue;
+            }
+            let (top, left) = match spec.build {
+                Build::Crop { top, left, .. } | Build::View { top, left, .. } => (top, left),
+                _ => (1, i),
+            };
+            regions.push((i, rows + top, left, c));
+            rows += top + c.h;
+            width = width.max(left + c.w + 1);
+        }
+        if regions.len() >= 2 {
+            let backing = guard_val(|| {
+                Image::from(SurfaceOwned::new_with(
+                    Size {
+                        height: rows + 1,
+                        width,
+                    },
+                    |p| {
+                        for (_, r0, left, c) in &regions {
+                            if p.row >= *r0 && p.row < r0 + c.h && p.col >= *left && p.col < left + c.w {
+                                return rgba(c.px((p.row - r0) * c.w + (p.col - left)));
+                            }
+                        }
+                        garbage(p.row * 31 + p.col)
+                    },
+                ))
+            })?;
+            for (i, r0, left, c) in &regions {
+                shared[*i] = Some(guard_val(|| backing.crop(*r0..r0 + c.h, *left..left + c.w))?);
+            }
+            windows = true;
+        }
+    }
+    for (i, spec) in case.imgs.iter().enumerate() {
         let ci = spec.content.min(case.contents.len() - 1);
         let c = &case.contents[ci];
-        let img = guard_val(|| build_image(c, &spec.build))?;
+        let img = match shared[i].take() {
+            Some(img) => img,
+            None => guard_val(|| build_image(c, &spec.build))?,
+        };
         // precondition of the oracle (not part of C11): the view shows the intended pixels
         let seen: Vec<u8> = img.iter().flat_map(|p| p.to_rgba()).collect();
         let dims_ok = c.is_empty() || (img.height() == c.h && img.width() == c.w);
@@ -1181,6 +1256,9 @@ pub fn check_case(case: &Case) -> Outcome {
         evno: 0,
     };
     run.label(if case.quiet { "handler:quiet" } else { "handler:plain" });
+    if windows {
+        run.label("img:windows-into-one-backing-image");
+    }
     {
         // two different contents with the same bytes (different shape) drawn on one handler
         let mut by_bytes: BTreeMap<&[u8], BTreeSet<usize>> = BTreeMap::new();
@@ -1316,9 +1394,17 @@ pub fn check_case(case: &Case) -> Outcome {
                                 .iter()
                                 .filter(|p| extra.contains(&p.serial))
                                 .all(|p| p.content != key);
-                            let class = if foreign {
-                                // the id of this image is also the id of another content
-                                "id-collision"
+                            let colliding = foreign
+                                && before
+                                    .iter()
+                                    .filter(|p| extra.contains(&p.serial))
+                                    .all(|p| known_colliding(&run.table[p.content], &run.table[key]));
+                            let class = if colliding {
+                                // the id of this image is also the id of another content: the
+                                // one pair known to collide (known finding)
+                                "id-collision-b021f58e-a2ebf1ed"
+                            } else if foreign {
+                                "foreign-content"
                             } else if pos == (0, 0) && p0 {
                                 "origin-p0"
                             } else {
@@ -1396,7 +1482,8 @@ pub fn check_case(case: &Case) -> Outcome {
                 };
                 guard_val(|| handler.handle(&mut out, &event))?
                     .map_err(|e| Fail::new("handle/error", format!("event #{evno}: handle returned {e:?}")))?;
-                run.exec(&out, Ctx::Resp)?;
+                let about = placement.filter(|p| run.m.pos_of_put.contains_key(&(id, *p)));
+                run.exec(&out, Ctx::Resp { about })?;
                 run.label(match (error, known) {
                     (true, true) => "ev:resp-error-known-id",
                     (true, false) => "ev:resp-error-unknown-id",
@@ -1549,9 +1636,10 @@ impl Property for C11 {
                     proptest::collection::vec(pos_strategy(), n_pos),
                     proptest::collection::vec(ev_strategy(n_img, n_pos), 1..=15),
                     0u8..48,
+                    proptest::bool::weighted(0.3),
                 )
             })
-            .prop_map(|(quiet, mut contents, imgs, poss, evs, tweak)| {
+            .prop_map(|(quiet, mut contents, imgs, poss, evs, tweak, shared_backing)| {
                 // contents that random pixels cannot reach (found once by an offline search
                 // over the 64-bit FNV content hash reduced mod 2^32-1)
                 let last = contents.len() - 1;
@@ -1582,6 +1670,7 @@ impl Property for C11 {
                     imgs,
                     poss,
                     evs,
+                    shared_backing,
                 }
             })
             .boxed()
@@ -1612,8 +1701,8 @@ impl Property for C11 {
     }
 
     fn rule(&self) -> String {
-        "generated: 1-3 image contents (sizes 0x0..48x48 incl. empty, 1x1 and sizes whose base64 payload is 4096k-4, 4096k, 4096k+4 bytes for k=1,2,3; solid / explicit / 00-FF / byte-ramp / noise pixels; rarely also a 1x1 content that hashes to image id 0 / a pair of 1x1 contents with equal image id / the same bytes in another shape) realised as 1-4 Images (owned, Image::new, crop, view, strided + column-major from_parts, transposed; several Images may share a content with different Arcs), 1-3 positions below 65536 biased to (0,0), row 0, column 0 and 65535, and a history of 1-15 events Draw / Erase(at|all) / response(OK|error, for a drawn image with a placement id the handler used, or arbitrary numbers) on one KittyImageHandler (plain or quiet). \
-         Every output is scanned (APC, ESC 7/8, CUP), every graphics command is parsed and executed on a kitty reference model; checked: key syntax, id range, chunk length <=4096 and multiple of 4, m flags, continuation chunks carry only m/q, RFC 4648 decode = w*h*4 bytes = row-major RGBA, s/v = image size, f=32, content transmitted at most once unless an error response invalidated its id, every a=p names an id whose data the terminal holds and whose data is the drawn image, draw of a non-empty image creates a placement, re-created placements sit at the cell of the original draw, erase-at deletes exactly the placements made by drawing that content at that cell (p=0/absent = all placements of the image). \
+        "generated: 1-3 image contents (sizes 0x0..48x48 incl. empty, 1x1 and sizes whose base64 payload is 4096k-4, 4096k, 4096k+4 bytes for k=1,2,3; solid / explicit / 00-FF / byte-ramp / noise pixels; rarely also a 1x1 content that hashes to image id 0 / a pair of 1x1 contents with equal image id / the same bytes in another shape) realised as 1-4 Images (owned, Image::new, crop, view, strided + column-major from_parts, transposed; several Images may share a content with different Arcs; in 30% of the cases all non-empty images are windows cropped out of one backing Image object), 1-3 positions below 65536 biased to (0,0), row 0, column 0 and 65535, and a history of 1-15 events Draw / Erase(at|all) / response(OK|error, for a drawn image with a placement id the handler used, or arbitrary numbers) on one KittyImageHandler (plain or quiet). \
+         Every output is scanned (APC, ESC 7/8, CUP), every graphics command is parsed and executed on a kitty reference model; checked: key syntax, id range, chunk length <=4096 and multiple of 4, m flags, continuation chunks carry only m/q, RFC 4648 decode = w*h*4 bytes = row-major RGBA, s/v = image size, f=32, content transmitted at most once unless an error response invalidated its id, every a=p names an id whose data the terminal holds and whose data is the drawn image, draw of a non-empty image creates a placement, placements re-created in answer to an error response carry the placement id the response named and sit at the cell of the original draw, erase-at deletes exactly the placements made by drawing that content at that cell (p=0/absent = all placements of the image). \
          non-trivial = a draw served from the transmit cache, or an erase-at with sibling placements of the same image, or an error response for an id the handler used".into()
     }
 
